@@ -43,7 +43,11 @@ PROPS = {
         trusted=["CommonFormatter.patch (the text shown), cmd_paths (what is sent), _blocks, _indent_blocks and _filtered_block_marks are "
                  "proved relative to the assumed contract of blocks_and_context (a well-bracketed token stream); match_deploy_rule (which rule "
                  "gives a command its timeout and dialogs: the walk of its block path through the rule tree) is proved relative to "
-                 "re.match / match_context; blocks_and_context itself, block_exit strings and apply_deploy_rulebook: bounded only",
+                 "re.match / match_context; apply_deploy_rulebook is proved equal to its spec (per maximal run of commands with one session wrapper: the "
+                 "wrapper's enter commands at depth 0, the run's commands in patch order at depth len(path) - 1 with their rule's timeout and "
+                 "dialogs, the wrapper's leave commands) relative to match_deploy_rule / the rule's apply logic (opaque), itertools.groupby modelled "
+                 "as maximal runs of equal keys (the key function is an obligation), the assumed rb_question_to_question, and the assumption that "
+                 "every dialog answer of the rulebook has send_nl; blocks_and_context itself and block_exit strings: bounded only",
                  "hardware flags are booleans with the hierarchy axiom as precondition of common.apply"],
     ),
     "C14": dict(
